@@ -382,6 +382,20 @@ pub fn run(tier: Tier, replay: Option<&str>) {
                     }
                 }
             }
+            // P2c (nb): boards whose receive windows stay open until / beyond the start of RX2
+            if front == "nb" {
+                for dur in [999u32, 1000, 1001, 1500, 2500] {
+                    for del in [1u8, 2] {
+                        for offs in [0i32, 50] {
+                            let mut dev = abp.clone();
+                            dev.offset_ms = offs;
+                            dev.duration_ms = dur;
+                            cases.push(Case { rxdelay: Some(del), tx_done_ms: 1000, ..base(dev.clone()) });
+                            cases.push(Case { rxdelay: Some(del), dr: Some(*drs.last().unwrap()), tx_done_ms: 1000, ..base(dev) });
+                        }
+                    }
+                }
+            }
             // P3: RX2 overrides
             for dr2 in 0..16u8 {
                 for f in [def_f, cmds::freqs(region)[3]] {
@@ -525,7 +539,7 @@ pub fn run(tier: Tier, replay: Option<&str>) {
         "capped": capped,
         "evaluations": ctx.evals(),
         "distinct_nontrivial": nontrivial.load(Ordering::Relaxed),
-        "rule": "(H) BFS over histories on one device instance per region x front-end x {ABP, OTAA, OTAA under a join bias with 1 / 8 retries (72-channel plans)}: uplinks (first RNG draw from a set), uplinks answered in RX1 or RX2 by RXParamSetupReq (valid: offset 1 / regional maximum, another RX2 data rate and frequency, back to the defaults; invalid in one field: RX2 data rate 14 (RFU in every region), out-of-band frequency, offset above the regional maximum), RXTimingSetupReq 0 / 2 / 15, DlChannelReq, NewChannelReq create / redefine / delete, LinkADRReq (mask down to the extra channel, all channels, lowest data rate), set_datarate lowest / highest, (nb) set_datarate between TX and the windows, (async) a radio call of the uplink failing once, (Class C) a continuous reception between the windows reporting an error, unanswered join attempts and (re-)joins whose accept carries other DLSettings / RxDelay in RX1 or RX2; every transaction that transmits is judged against a reference model of the parameters in force (updated only by requests that are unambiguously valid) and the regional tables: RX1 frequency and data rate, RX2 frequency and data rate, Class C parameters, window size limits, window times (nb clock started shortly before its 2^32 ms wrap); states = distinct (device snapshot minus counters and keys, front-end state, reference model). Plus eight full sub-products per region and front-end (nb, async, async+Class C), each case a fresh real device brought into the configuration by authentic RXParamSetupReq / RXTimingSetupReq / DlChannelReq downlinks and set_datarate: (P1) every region-defined uplink data rate x RX1DROffset 0..7 x first RNG draw (all 64 for the 72-channel plans); (P2) RXTimingSetupReq delay 0..15 x board offset/lead {0,15,50,100} x TX end time; (P2b, nb) TX end times around 2^31 ms and the 2^32 ms wrap of the clock x delay x offset; (P3) all 16 RX2 data rate values x 2 frequencies x lowest/highest uplink rate; (P4) DlChannelReq on channels 0..3 x 2 frequencies x draws; (P5) joins under join-bias settings x draws; (P6, nb) set_datarate between TX and the windows; (P7) a re-join on a default channel after DlChannelReq remapped its downlink frequency; (P8) NewChannelReq, DlChannelReq, then a NewChannelReq redefining the same channel; (P9) DlChannelReq on a default channel, the mask reduced to an extra channel, that channel deleted (fallback to the default channels). non-trivial = cases with an installed override or a join",
+        "rule": "(H) BFS over histories on one device instance per region x front-end x {ABP, OTAA, OTAA under a join bias with 1 / 8 retries (72-channel plans)}: uplinks (first RNG draw from a set), uplinks answered in RX1 or RX2 by RXParamSetupReq (valid: offset 1 / regional maximum, another RX2 data rate and frequency, back to the defaults; invalid in one field: RX2 data rate 14 (RFU in every region), out-of-band frequency, offset above the regional maximum), RXTimingSetupReq 0 / 2 / 15, DlChannelReq, NewChannelReq create / redefine / delete, LinkADRReq (mask down to the extra channel, all channels, lowest data rate), set_datarate lowest / highest, (nb) set_datarate between TX and the windows, (async) a radio call of the uplink failing once, (Class C) a continuous reception between the windows reporting an error, unanswered join attempts and (re-)joins whose accept carries other DLSettings / RxDelay in RX1 or RX2; every transaction that transmits is judged against a reference model of the parameters in force (updated only by requests that are unambiguously valid) and the regional tables: RX1 frequency and data rate, RX2 frequency and data rate, Class C parameters, window size limits, window times (nb clock started shortly before its 2^32 ms wrap); states = distinct (device snapshot minus counters and keys, front-end state, reference model). Plus eight full sub-products per region and front-end (nb, async, async+Class C), each case a fresh real device brought into the configuration by authentic RXParamSetupReq / RXTimingSetupReq / DlChannelReq downlinks and set_datarate: (P1) every region-defined uplink data rate x RX1DROffset 0..7 x first RNG draw (all 64 for the 72-channel plans); (P2) RXTimingSetupReq delay 0..15 x board offset/lead {0,15,50,100} x TX end time; (P2b, nb) TX end times around 2^31 ms and the 2^32 ms wrap of the clock x delay x offset; (P2c, nb) boards whose receive windows last 999 / 1000 / 1001 / 1500 / 2500 ms (RX1 still open when RX2 is due); (P3) all 16 RX2 data rate values x 2 frequencies x lowest/highest uplink rate; (P4) DlChannelReq on channels 0..3 x 2 frequencies x draws; (P5) joins under join-bias settings x draws; (P6, nb) set_datarate between TX and the windows; (P7) a re-join on a default channel after DlChannelReq remapped its downlink frequency; (P8) NewChannelReq, DlChannelReq, then a NewChannelReq redefining the same channel; (P9) DlChannelReq on a default channel, the mask reduced to an extra channel, that channel deleted (fallback to the default channels). non-trivial = cases with an installed override or a join",
         "samples": [serde_json::to_value(&cases[0]).unwrap(), serde_json::to_value(&cases[cases.len() / 2]).unwrap(), serde_json::to_value(cases.last().unwrap()).unwrap()],
         "exhaustive": !capped,
         "regions": regions,
